@@ -430,11 +430,17 @@ impl Engine {
                 score: best_score,
                 best_move: best_mv,
             });
-            depth += 1;
 
             match score {
                 Score::BlackMateIn(_) | Score::WhiteMateIn(_) => break,
                 _ => (),
+            }
+
+            // passes can be trivially cheap (no legal move, or the 50-move clock has run out),
+            // so the depth counter can reach its limit long before the timeout
+            match depth.checked_add(1) {
+                Some(next_depth) => depth = next_depth,
+                None => break,
             }
         }
 
